@@ -1115,6 +1115,17 @@ pub fn late_push_programs() -> Vec<Program> {
 /// attachment lands depends only on which local span is open at that moment, whatever was
 /// recorded or closed just before.
 pub fn local_sequence_programs(max_len: usize) -> Vec<Program> {
+    // at least two attachments and one leave
+    local_sequences(max_len, "C06-local-seq", |seq| seq.iter().filter(|s| **s >= 2).count() >= 2 && seq.contains(&1))
+}
+
+/// C02: the same sequences chosen for their shape: at least two local spans and one attachment
+/// (which record is whose parent must not depend on what was attached where before).
+pub fn local_tree_programs(max_len: usize) -> Vec<Program> {
+    local_sequences(max_len, "C02-local-seq", |seq| seq.iter().filter(|s| **s == 0).count() >= 2 && seq.iter().any(|s| *s >= 2))
+}
+
+fn local_sequences(max_len: usize, family: &str, keep: impl Fn(&[u8]) -> bool) -> Vec<Program> {
     let mut out = Vec::new();
     // 0 = enter, 1 = leave, 2 = property, 3 = event
     let mut seqs: Vec<Vec<u8>> = vec![vec![]];
@@ -1140,9 +1151,7 @@ pub fn local_sequence_programs(max_len: usize) -> Vec<Program> {
         frontier = next;
     }
     for (idx, seq) in seqs.iter().enumerate() {
-        // only sequences with at least two attachments and one leave in between are of interest
-        let attaches = seq.iter().filter(|s| **s >= 2).count();
-        if attaches < 2 || !seq.contains(&1) {
+        if !keep(seq) {
             continue;
         }
         let mut ops = vec![root(0, "r", 0x6C), scope(0)];
@@ -1166,7 +1175,7 @@ pub fn local_sequence_programs(max_len: usize) -> Vec<Program> {
         }
         ops.push(pop());
         ops.push(finish(0));
-        out.push(Program::new(format!("C06-local-seq#{idx}")).worker("A", ops).collector(1, true, 0));
+        out.push(Program::new(format!("{family}#{idx}")).worker("A", ops).collector(1, true, 0));
     }
     out
 }
